@@ -37,7 +37,10 @@ SPEC = {
                   "not newer than the primary tunnel for its first certificate address, accepted as responder, changes no map and creates "
                   "nothing. C10_tunnel_data / C10_log_sound: role, kept payload and time of every tunnel in Indexes are those of the "
                   "completed handshake (a log entry written exactly when a stage 1 or stage 2 completes) that created it.",
-    "level_note": "The peer-reported time (like everything in the first IX message) is UNAUTHENTICATED input when the responder acts "
+    "level_note": "The executable specification judges clause 2 on observations against the peer-reported time of the stage 1 that "
+                  "created the primary (the harness's input, not what the node stored), for peer clocks behind, ahead of (year 2200, "
+                  "2^64-1) and mixed with the responder's clock, and requires the stored lastHandshakeTime of a new responder tunnel to "
+                  "equal the peer-reported time. The peer-reported time (like everything in the first IX message) is UNAUTHENTICATED input when the responder acts "
                   "on it: C10 is about re-delivering a message (same bytes: only a resend) and about a time that is not newer. An altered "
                   "copy of a captured stage 1 (time rewritten, no key needed) is a different message with a newer time and does replace the "
                   "primary: known finding F27, proved in the model as C10_forged_time_refuted and reproduced on the real code by the first "
